@@ -155,7 +155,7 @@ def run(tier):
     n_fixed = len(plans)
     # the same structures over other boundary alphabets, started from a non-empty, churned heap
     rng = A.rng_for(chk, "c03")
-    n_rot = 700 if quick else 5000
+    n_rot = 700 if quick else 3500
     for i in range(n_rot):
         h = hists[rng.randrange(len(hists))]
         al, rs = random_alphabet(rng, k, nalloc, nresize, big_ok=(i % 4 == 0))
@@ -163,7 +163,7 @@ def run(tier):
                       "oseq": [rng.choice("bad") for _ in range(4)], "refuse_each": i % 3 == 0,
                       "warm": rng.randrange(1, 1 << 30) if i % 2 == 0 else 0, "classes": classes, "walk": i % 2 == 1, "amplify": i % 2 == 0, "src": "tlc-rotated"})
     # seeded random long histories with random placement and random refusals
-    n_rand, n_ops = (70, 300) if quick else (700, 600)
+    n_rand, n_ops = (70, 300) if quick else (500, 600)
     rand_plans = []
     for i in range(n_rand):
         big = i % 8 == 0
